@@ -92,7 +92,7 @@ def terminal_losses(air):
 
 def run_case(case):
     res = Result()
-    net = Net(horizon_ms=600_000)
+    net = Net(horizon_ms=600_000, id0=case.get("id0", 0))
     frag_on = bool(case.get("frag", True))
     out = []
 
